@@ -200,7 +200,13 @@ type c03In struct {
 	// Policy: Config.CertSelection ("" = nil: DefaultCertificateSelector; "min", "max",
 	// "good-min", "refuse": harness doubles, see c03Selector)
 	Policy string `json:"policy,omitempty"`
+	// Protos: hello.SupportedProtos (ALPN); Abort: the "tls_get_certificate" event handler vetoes
+	Protos []string `json:"protos,omitempty"`
+	Abort  bool     `json:"abort,omitempty"`
 }
+
+// ALPN offers: none (most), ordinary, the TLS-ALPN challenge protocol alone, and mixed with others
+var c03ProtoSets = [][]string{nil, nil, nil, {"h2", "http/1.1"}, {"acme-tls/1"}, {"acme-tls/1", "h2"}, {"h2", "acme-tls/1"}, {"acme-tls/1", "acme-tls/1"}, {"ACME-TLS/1"}}
 
 var c03Policies = map[string]int{"": 0, "min": 1, "max": 2, "good-min": 3, "refuse": 4}
 
@@ -267,7 +273,8 @@ func newC03Env() (*c03Env, error) {
 	env := &c03Env{backend: doubles.NewMemBackend(), pool: map[string]*c03Cert{}, stored: map[string]*c03Cert{}, alias: map[string]string{}}
 	ca := doubles.NewCA("c03 CA")
 	iss := &doubles.IssuerDouble{Key: "dbl", CA: ca, Log: env.backend.Log, Inst: "c03"}
-	cfg, cache := doubles.NewConfig(env.backend.Handle("c03"), certmagic.Config{}, certmagic.CacheOptions{}, iss)
+	// (a synthetic ClientHelloInfo has a nil Context(), which the TLS-ALPN branch hands to Storage.Load)
+	cfg, cache := doubles.NewConfig(doubles.NilCtxStorage{S: env.backend.Handle("c03")}, certmagic.Config{}, certmagic.CacheOptions{}, iss)
 	env.cfg, env.cache = cfg, cache
 	env.getter = func(certmagic.Certificate) (*certmagic.Config, error) { return cfg, nil }
 	for i := range c03PoolDef {
@@ -476,7 +483,7 @@ func (env *c03Env) snap() c12Snap {
 // realHandshake performs a real TLS handshake over TCP loopback against
 // tls.Server(cfg.TLSConfig()) with GetCertificate wrapped by observe; it returns the leaf the
 // client was served (nil if the handshake failed) and the client's handshake error.
-func (env *c03Env) realHandshake(sni, client string, observe func(*tls.ClientHelloInfo) (*tls.Certificate, error)) ([]byte, error) {
+func (env *c03Env) realHandshake(sni, client string, protos []string, observe func(*tls.ClientHelloInfo) (*tls.Certificate, error)) ([]byte, error) {
 	addr := "127.0.0.1:0"
 	if strings.HasSuffix(client, "@v6") && env.haveV6 {
 		addr = "[::1]:0"
@@ -501,7 +508,7 @@ func (env *c03Env) realHandshake(sni, client string, observe func(*tls.ClientHel
 	}()
 	var served []byte
 	d := &net.Dialer{Timeout: 5 * time.Second}
-	cc := &tls.Config{ServerName: sni, InsecureSkipVerify: true}
+	cc := &tls.Config{ServerName: sni, InsecureSkipVerify: true, NextProtos: protos}
 	switch strings.TrimSuffix(client, "@v6") {
 	case "tls12-ecdsa":
 		cc.MaxVersion = tls.VersionTLS12
@@ -583,6 +590,8 @@ func (env *c03Env) lookupCase(w *emit.Writer, in c03In, class string) error {
 	var err, obsErr error
 	var called, hasConn bool
 	var panicked string
+	var amc []string
+	var protosSeen []string
 	var ip, implIP, sni string
 	var idnaName string
 	var idnaOK bool
@@ -592,6 +601,7 @@ func (env *c03Env) lookupCase(w *emit.Writer, in c03In, class string) error {
 	observe := func(hello *tls.ClientHelloInfo) (*tls.Certificate, error) {
 		called = true
 		sni = hello.ServerName
+		protosSeen = append([]string{}, hello.SupportedProtos...)
 		now := time.Now()
 		for _, id := range in.Certs {
 			c := env.pool[id]
@@ -623,6 +633,12 @@ func (env *c03Env) lookupCase(w *emit.Writer, in c03In, class string) error {
 				ip = ta.IP.String()
 			}
 		}
+		// the other public view of the same cache, before the call: AllMatchingCertificates of the
+		// normalised server name
+		amc = []string{}
+		for _, c := range env.cache.AllMatchingCertificates(strings.ToLower(strings.TrimSpace(hello.ServerName))) {
+			amc = append(amc, env.al(c.Hash()))
+		}
 		// the call (a panic is an observation too: neither an error nor a certificate)
 		func() {
 			defer func() {
@@ -637,10 +653,22 @@ func (env *c03Env) lookupCase(w *emit.Writer, in c03In, class string) error {
 	}
 	var served []byte
 	var herr error
+	env.cfg.OnEvent = nil
+	if in.Abort {
+		env.cfg.OnEvent = func(ctx context.Context, event string, data map[string]any) error {
+			if event == "tls_get_certificate" {
+				return fmt.Errorf("event handler double: handshake vetoed")
+			}
+			return nil
+		}
+	}
+	defer func() { env.cfg.OnEvent = nil }()
 	if !in.RealTLS {
-		observe(c03Hello(in.SNI, in.Local, in.Hello))
+		h := c03Hello(in.SNI, in.Local, in.Hello)
+		h.SupportedProtos = in.Protos
+		observe(h)
 	} else {
-		served, herr = env.realHandshake(in.SNI, in.Client, observe)
+		served, herr = env.realHandshake(in.SNI, in.Client, in.Protos, observe)
 		if !called {
 			w.Hist("real_tls_no_hello") // the client refused the server name: nothing reached the server
 			return nil
@@ -682,6 +710,7 @@ func (env *c03Env) lookupCase(w *emit.Writer, in c03In, class string) error {
 		}
 	}
 	e.Str(in.Default).Str(in.Fallback).Str(sni).Str(ip).Bool(hasConn)
+	e.Bool(in.Abort).StrList(protosSeen)
 	e.Int(c03Policies[in.Policy])
 	if idnaOK {
 		e.Bool(true).Str(idnaName)
@@ -758,11 +787,19 @@ func (env *c03Env) lookupCase(w *emit.Writer, in c03In, class string) error {
 	if !hasConn {
 		w.Hist("hello_without_conn")
 	}
+	if in.Abort {
+		w.Hist("event_handler_veto")
+	}
+	if len(protosSeen) > 0 {
+		w.Hist("alpn=" + strings.Join(protosSeen, ","))
+	}
 	if in.RealTLS && (err != nil || cert == nil || len(cert.Certificate) == 0) && herr == nil {
 		// the handshake succeeded although GetCertificate gave nothing
 		return fmt.Errorf("real TLS handshake for %q succeeded although GetCertificate answered %v", in.SNI, err)
 	}
 	encSnap(e, after)
+	e.StrList(amc)
+	obs["all_matching_certificates"] = amc
 	obs["local_ip"] = ip
 	if implIP != ip {
 		obs["local_ip_as_code_sees_it"] = implIP
@@ -1229,7 +1266,7 @@ func runC03(tier string, seed int64, outdir string, replay string) error {
 		}
 		cf := c03Configs[r.Intn(len(c03Configs))]
 		in := c03In{Certs: ids, Cap: []int{0, n}[r.Intn(2)], Default: cf[0], Fallback: cf[1], SNI: realNames[r.Intn(len(realNames))], Local: "127.0.0.1", Storage: "empty", RealTLS: true,
-			Client: clients[r.Intn(len(clients))]}
+			Client: clients[r.Intn(len(clients))], Protos: c03ProtoSets[r.Intn(len(c03ProtoSets))]}
 		if in.Cap > 0 && r.Intn(2) == 0 {
 			in.Storage = []string{"valid-a", "expired-a", "wild-b+expired-zz"}[r.Intn(3)]
 		}
@@ -1258,7 +1295,8 @@ func runC03(tier string, seed int64, outdir string, replay string) error {
 		in := c03In{Certs: ids, Cap: []int{0, 0, n, n + 1}[r.Intn(4)], Default: cf[0], Fallback: cf[1], SNI: c03Queries[r.Intn(len(c03Queries))],
 			Local: allLocals[r.Intn(len(allLocals))], Storage: "empty",
 			Policy: []string{"", "min", "max", "good-min", "good-min", "refuse"}[r.Intn(6)],
-			Hello:  []string{"", "", "ed25519", "rsa", "tls12"}[r.Intn(5)]}
+			Hello:  []string{"", "", "ed25519", "rsa", "tls12"}[r.Intn(5)],
+			Protos: c03ProtoSets[r.Intn(len(c03ProtoSets))], Abort: r.Intn(12) == 0}
 		if in.Cap > 0 && r.Intn(2) == 0 {
 			in.Storage = []string{"valid-a", "expired-a", "wild-b+expired-zz", "broken-qb+wild-b", "broken-wild-b+valid-a"}[r.Intn(5)]
 			if r.Intn(2) == 0 {
@@ -1290,7 +1328,7 @@ func runC03(tier string, seed int64, outdir string, replay string) error {
 				q = storageQueries[r.Intn(len(storageQueries))]
 			}
 			if err := env.lookupCase(w, c03In{Certs: ids, Cap: capacity, Default: cf[0], Fallback: cf[1], SNI: q, Local: allLocals[r.Intn(len(allLocals))], Storage: stv,
-				Hello: []string{"", "", "", "ed25519", "rsa"}[r.Intn(5)]}, "random-large"); err != nil {
+				Hello: []string{"", "", "", "ed25519", "rsa"}[r.Intn(5)], Protos: c03ProtoSets[r.Intn(len(c03ProtoSets))], Abort: r.Intn(15) == 0}, "random-large"); err != nil {
 				return err
 			}
 		}
